@@ -55,6 +55,10 @@ def streams(tier, rng, P, only=None, cases=None):
             for kw in ["TrackName", "Text", "Lyric"]:
                 srcs.append("%s=%s c" % (kw, fn))
             srcs.append("STR S=%s; TrackName=S; PRINT(S) c" % fn)
+        # stray characters inside conditions and argument lists (the lexer skips them, with a message only when debugging): what is
+        # skipped must not depend on the debug level
+        srcs += ["Function ADD(A,B){ Result=A+B; } Int X=ADD(60;4); n(X)", "Int N=4; IF(N\u00d72==8){ c }ELSE{ d }", "IF(1 ?){c}ELSE{d}", "INT X=0 WHILE(X<3 @){ X++ c }",
+                 "FOR(INT I=0; I<2 ~; I++){ c }", "PRINT(1 ! 2) c", "INT A=(1 ?2) n(60+A)", "INT A=3 IF(A ?>2){ e }ELSE{ f }", "FUNCTION G(A){ RETURN(A) } n(G(60 $4))", "IF(2 \u3042>1){ c }ELSE{ d }"]
         # byte-level layout of the source file: line ends, byte-order mark, line breaks inside strings and comments — the command-line tool
         # must hand the library's entry point the text as it is
         srcs += ['TrackName={"ab\r\ncd"}\r\nl8 cde\r\n', 'Text{"a\rb"} c\rd', "\ufeffc d e", "c\r\nd\r\ne\r\n", "/* x\r\ny */ c\r\n", "PRINT({a\r\nb}) c\r\n",
